@@ -8,6 +8,10 @@ package main
 import (
 	"context"
 	"fmt"
+	corev1 "k8s.io/api/core/v1"
+	"k8s.io/apimachinery/pkg/api/resource"
+	k8stypes "k8s.io/apimachinery/pkg/types"
+	"sigs.k8s.io/controller-runtime/pkg/client"
 	"sort"
 	"strconv"
 	"strings"
@@ -424,6 +428,14 @@ func ipamRun(c *Ctx, focus string) {
 		default:
 			op = fmt.Sprintf("ip.trim %s %s", g.str(), recStr(rec))
 		}
+		if focus == "C02" && i%8 == 3 {
+			// the pods of a node as the controller lists them (names in list order: the fake client sorts by name)
+			var ps []string
+			for k, m := 0, 1+r.Intn(5); k < m; k++ {
+				ps = append(ps, fmt.Sprintf("p%d/%s/%s/%s/%s/%s", k, b01(r.Chance(10)), b01(r.Chance(10)), b01(r.Chance(10)), b01(r.Chance(25)), b01(r.Chance(30))))
+			}
+			op = fmt.Sprintf("ip.pods %s %s %s %s", b01(r.Chance(80)), b01(r.Chance(50)), b01(r.Chance(70)), strings.Join(ps, " "))
+		}
 		if focus == "C02" && len(rec) > 0 && i%8 == 7 {
 			// cloud drift: what a full synchronisation finds for one interface
 			var cur, rem []string
@@ -489,6 +501,59 @@ func ipamExecOne(c *Ctx, focus string, op string) Line {
 		}
 	}
 	switch f[0] {
+	case "ip.pods":
+		// which pods of the node take part in the IPAM and what each needs: the real getPods over a fake client
+		if len(f) < 4 {
+			return Line{op, "bad-op"}
+		}
+		node := &networkv1beta1.Node{ObjectMeta: metav1.ObjectMeta{Name: "node-a"}}
+		node.Spec.ENISpec = &networkv1beta1.ENISpec{EnableIPv4: f[1] == "1", EnableIPv6: f[2] == "1", EnableERDMA: f[3] == "1"}
+		b := fake.NewClientBuilder().WithScheme(terwayTypes.Scheme).
+			WithIndex(&corev1.Pod{}, "spec.nodeName", func(o client.Object) []string { return []string{o.(*corev1.Pod).Spec.NodeName} })
+		type raw struct{ name, ei, em string }
+		var raws []raw
+		for _, t := range f[4:] {
+			g := strings.Split(t, "/")
+			if len(g) != 6 {
+				return Line{op, "bad-op"}
+			}
+			lim := func(x string) corev1.ResourceRequirements {
+				if x == "1" {
+					return corev1.ResourceRequirements{Limits: corev1.ResourceList{"aliyun/erdma": resource.MustParse("1")}}
+				}
+				return corev1.ResourceRequirements{Limits: corev1.ResourceList{"cpu": resource.MustParse("1")}}
+			}
+			pod := &corev1.Pod{ObjectMeta: metav1.ObjectMeta{Namespace: "ns", Name: g[0], UID: k8stypes.UID("uid-" + g[0]), Annotations: map[string]string{}},
+				Spec: corev1.PodSpec{NodeName: "node-a", HostNetwork: g[1] == "1",
+					InitContainers: []corev1.Container{{Name: "i", Resources: lim(g[4])}},
+					Containers:     []corev1.Container{{Name: "c0", Resources: lim("0")}, {Name: "c1", Resources: lim(g[5])}}}}
+			if g[2] == "1" {
+				pod.Annotations[terwayTypes.PodENI] = "true"
+			}
+			if g[3] == "1" {
+				pod.Status.Phase = corev1.PodSucceeded
+			}
+			b = b.WithObjects(pod)
+			raws = append(raws, raw{g[0], g[4], g[5]})
+		}
+		got, err := ipamnode.VerifGetPods(context.Background(), b.Build(), node)
+		if err != nil {
+			return Line{op, "err"}
+		}
+		var ss []string
+		for id, p := range got {
+			name := strings.TrimPrefix(id, "ns/")
+			ss = append(ss, fmt.Sprintf("%s:%s:%s:%s", name, b01(p.RequireIPv4), b01(p.RequireIPv6), b01(p.RequireERDMA)))
+			// property-level: only a pod that asks for RDMA itself is given an RDMA interface
+			for _, rw := range raws {
+				if rw.name == name && p.RequireERDMA && !(f[3] == "1" && (rw.ei == "1" || rw.em == "1")) {
+					viol("C02/pods/rdma-for-plain-pod", fmt.Sprintf("pod %s is classified as needing an RDMA interface although none of its containers asks for one (RDMA enabled on the node: %v)", name, f[3] == "1"))
+				}
+			}
+		}
+		sort.Strings(ss)
+		c.Count("pods")
+		return Line{op, joinOrDash(ss)}
 	case "ip.merge":
 		// the full synchronisation's merge of what the cloud reports for one interface into the record (mergeIPMap)
 		if len(f) != 3 {
